@@ -30,7 +30,8 @@ pub const CONSTRAINT_DEGREES: [usize; NUM_CONSTRAINTS] = [
     // Given it is a degree 6 operation, 6 is added to all the individual constraints
     // degree.
     9, // constraint for element validity check
-    7, 7, // 2 constraints in the agg of lower and upper limbs
+    7, // constraint in the agg of lower limbs
+    6, // constraint in the agg of upper limbs (the flag excluding U32DIV and U32SUB has degree 5)
     7, // constraint for U32SPLIT operation
     7, // constraint for U32ADD  operation
     7, // constraint for U32ADD3 operation
@@ -295,18 +296,19 @@ pub fn enforce_limbs_agg<E: FieldElement<BaseField = Felt>>(
     op_flag: &OpFlags<E>,
     limbs: &LimbCompositions<E>,
 ) -> usize {
-    // flag of u32 arithmetic operation excluding the `U32DIV` operation.
-    let u32op_ex_div_assert2 = op_flag.u32_rc_op() - op_flag.u32div() - op_flag.u32assert2();
+    // flag of u32 operations excluding the `U32DIV` operation. `U32ASSERT2` is included: it copies
+    // the top two stack elements, thus, these constraints force both of them to be u32 values.
+    let u32op_ex_div = op_flag.u32_rc_op() - op_flag.u32div();
 
-    let u32op_ex_div_assert2_sub = u32op_ex_div_assert2 - op_flag.u32sub();
+    let u32op_ex_div_sub = u32op_ex_div - op_flag.u32sub();
 
     // Enforces that aggregation of the two lower 16-bits limbs is equal to the second stack element
     // in the next row.
-    result[0] = u32op_ex_div_assert2 * are_equal(frame.stack_item_next(1), limbs.v_lo());
+    result[0] = u32op_ex_div * are_equal(frame.stack_item_next(1), limbs.v_lo());
 
     // Enforces that aggregation of the two upper 16-bits limbs is equal to the first stack element
     // in the next row.
-    result[1] = u32op_ex_div_assert2_sub * are_equal(frame.stack_item_next(0), limbs.v_hi());
+    result[1] = u32op_ex_div_sub * are_equal(frame.stack_item_next(0), limbs.v_hi());
 
     2
 }
